@@ -2,6 +2,8 @@
    Socket-dispatcher level. Only statements + exact. *)
 From Utp Require Import Base.Prelude Wire.SeqNr Wire.Header Sock.Dispatcher Sock.Dispatcher_Proofs
   Sock.DispObs Sock.DispObs_Proofs.
+From Utp Require Import Sock.DispFresh_Proofs Sock.DispSlots_Proofs Sock.DispPending_Proofs
+  Sock.DispWiring_Proofs Sock.DispRelease_Proofs.
 
 (* backlog: at most 32 SYNs are retained; a SYN that can neither be served nor queued is refused
    with exactly one reset carrying its sequence number; a SYN is served directly only when no
@@ -92,3 +94,210 @@ Print Assumptions c13_cleanup_safe.
 Print Assumptions c13_one_acceptor_one_stream.
 Print Assumptions c13_control.
 Print Assumptions c13_new_syn_queues_behind_cached.
+
+(* ================================================================== "the two are wired to each other" *)
+(* Every EvAccepted of every step: the SYN it answers (from the backlog or the datagram being
+   handled), key = (SYN's address, SYN's connection id + 1) which was free, the connection object
+   registered under that key is the one handed to exactly this acceptor, which is alive.
+   syn_key y = (sy_addr y, sy_conn y + 1 mod 2^16), live_entry k sid = table entry k / alive / sid. *)
+Theorem c13_accepted_wiring : forall s o s' e acc k,
+  d_inv s -> dstep s o = (s', e) -> In (EvAccepted acc k) e ->
+  exists y sid,
+    (In y (d_syns s) \/
+     exists pushes addr m, o = DoRunOnce pushes (ArmRecv addr (Some m)) /\ dm_type m = ST_SYN /\ y = syn_of addr m) /\
+    k = syn_key y /\
+    ~ In k (keys (d_streams s)) /\
+    In (acc, (k, sid)) (d_handed s') /\ In (live_entry k sid) (d_streams s') /\
+    ~ In acc (d_dead_acceptors s).
+Proof. exact accepted_event_facts. Qed.
+
+(* Every EvConnected of every step: a ST_STATE datagram no connection claimed, key = (its address,
+   its connection id) which was free, paired with the FIRST pending connect to that address whose
+   SYN carried the acknowledged sequence number; that slot is released; the connector is alive. *)
+Theorem c13_connected_wiring : forall s o s' e t k,
+  d_inv s -> dstep s o = (s', e) -> In (EvConnected t k) e ->
+  exists pushes addr m c m1 m2 sid,
+    o = DoRunOnce pushes (ArmRecv addr (Some m)) /\ dm_type m = ST_STATE /\
+    k = {| k_addr := addr; k_conn := dm_conn m |} /\
+    pending s addr = m1 ++ c :: m2 /\ cn_token c = t /\ cn_seq c = dm_ack m /\
+    (forall x, In x m1 -> cn_seq x <> dm_ack m) /\ pending s' addr = m1 ++ m2 /\
+    ~ In k (keys (d_streams s)) /\ In (live_entry k sid) (d_streams s') /\
+    In (t, CrOk k) (d_results s') /\ ~ In t (d_dead_connectors s).
+Proof. exact connected_event_facts. Qed.
+
+(* the two ends, on the RECEIVE ids the model carries: initiator receives on c, acceptor on c + 1
+   (hypothesis dm_conn mA = c: the SYN-ACK carries the acceptor's conn_id_send, a StreamArgs
+   field the dispatcher model does not have) *)
+Theorem c13_wiring_cross_keys : forall c,
+  forall sB pushesB pa mB sB' eB acc kB,
+    d_inv sB -> d_syns sB = [] -> dm_type mB = ST_SYN -> dm_conn mB = c ->
+    dstep sB (DoRunOnce pushesB (ArmRecv pa (Some mB))) = (sB', eB) -> In (EvAccepted acc kB) eB ->
+  forall sA pushesA pb mA sA' eA t kA,
+    d_inv sA -> dm_conn mA = c ->
+    dstep sA (DoRunOnce pushesA (ArmRecv pb (Some mA))) = (sA', eA) -> In (EvConnected t kA) eA ->
+  kB = {| k_addr := pa; k_conn := wadd16 c 1 |} /\ kA = {| k_addr := pb; k_conn := c |} /\
+  k_conn kB = wadd16 (k_conn kA) 1.
+Proof. exact wiring_cross_keys. Qed.
+
+(* NOT a statement about the frozen model: `sargs_incoming` / `sargs_outgoing` are transcriptions
+   (Sock/DispWiring_Proofs.v, by inspection) of the id / sequence-number fields of
+   StreamArgs::new_incoming / new_outgoing, which the dispatcher model does not carry.  They fit
+   together when the SYN-ACK echoes what new_incoming prescribes. *)
+Theorem c13_stream_args_cross_transcribed : forall (isn : Z) (y : syn) (m : dmsg),
+  let b := sargs_incoming isn y in
+  dm_conn m = sa_conn_id_send b -> dm_seq m = sa_seq_nr b -> dm_ack m = sa_last_sent_ack_nr b ->
+  let a := sargs_outgoing m in
+  sa_conn_id_recv a = sa_conn_id_send b /\ sa_conn_id_send a = sa_conn_id_recv b /\
+  k_conn (syn_key y) = sa_conn_id_recv b /\
+  sa_last_sent_seq_nr a = sy_seq y /\ sa_last_consumed_remote_seq_nr b = sa_last_sent_seq_nr a /\
+  sa_last_consumed_remote_seq_nr a = sa_last_sent_seq_nr b.
+Proof. exact sargs_cross. Qed.
+
+(* ================================================================== abandoned calls release what they reserved *)
+Theorem c13_reachable_inv : forall max_streams random ops, d_inv (drun (dstate_new max_streams random) ops).
+Proof. exact reachable_inv. Qed.
+
+(* pending s a = the pending connects to address a, in slot order (at most 4) *)
+
+(* fewer than four pending connects to the address: the request is never refused for lack of a
+   slot (only the table limit can refuse it) *)
+Theorem c13_connect_not_starved : forall s pushes addr token r s' e,
+  d_inv s -> d_control s = CtlConnect addr token :: r ->
+  (length (pending s addr) < 4)%nat ->
+  dstep s (DoRunOnce pushes (ArmControl SynSent)) = (s', e) ->
+  (In (EvConnectErr token) e /\ d_results s' = d_results s ++ [(token, CrTooMany)] /\
+   forall a, pending s' a = pending s a) \/
+  (no_connect_err e /\ d_results s' = d_results s /\
+   exists cid q, In (EvSentSyn addr cid q) e /\
+     In {| cn_token := token; cn_seq := q |} (pending s' addr) /\
+     length (pending s' addr) = S (length (pending s addr)) /\
+     forall a, a <> addr -> pending s' a = pending s a).
+Proof. exact connect_not_starved. Qed.
+
+Theorem c13_connect_refused_when_four_pending : forall s pushes addr token r s' e,
+  d_inv s -> d_control s = CtlConnect addr token :: r ->
+  length (pending s addr) = 4%nat ->
+  dstep s (DoRunOnce pushes (ArmControl SynSent)) = (s', e) ->
+  In (EvConnectErr token) e /\ (forall a, pending s' a = pending s a) /\
+  (d_results s' = d_results s ++ [(token, CrTooMany)] \/ d_results s' = d_results s ++ [(token, CrDead)]).
+Proof. exact connect_refused_when_four_pending. Qed.
+
+(* handling ConnectDropped(addr, token) releases the first pending connect with that token *)
+Theorem c13_connect_dropped_frees_slot : forall s pushes send addr token r s' e,
+  d_inv s -> d_control s = CtlConnectDropped addr token :: r ->
+  dstep s (DoRunOnce pushes (ArmControl send)) = (s', e) ->
+  no_connect_err e /\ d_results s' = d_results s /\
+  (forall a, a <> addr -> pending s' a = pending s a) /\
+  ((pending s' addr = pending s addr /\ forall x, In x (pending s addr) -> cn_token x <> token) \/
+   exists c m1 m2, pending s addr = m1 ++ c :: m2 /\ cn_token c = token /\
+                   (forall x, In x m1 -> cn_token x <> token) /\ pending s' addr = m1 ++ m2).
+Proof. exact connect_dropped_frees_slot. Qed.
+
+Theorem c13_connect_after_drop_not_starved :
+  forall s pushes send addr token r s1 e1 pushes' token' r' s2 e2,
+  d_inv s -> d_control s = CtlConnectDropped addr token :: r ->
+  (exists c, In c (pending s addr) /\ cn_token c = token) ->
+  dstep s (DoRunOnce pushes (ArmControl send)) = (s1, e1) ->
+  d_control s1 = CtlConnect addr token' :: r' ->
+  dstep s1 (DoRunOnce pushes' (ArmControl SynSent)) = (s2, e2) ->
+  d_results s2 = d_results s1 ++ [(token', CrTooMany)] \/
+  (no_connect_err e2 /\ exists q, In {| cn_token := token'; cn_seq := q |} (pending s2 addr)).
+Proof. exact connect_after_drop_not_starved. Qed.
+
+(* slots never leak: the number of pending connects to an address grows only by a granted connect *)
+Theorem c13_pending_grows_only_by_connect : forall s o s' e a,
+  d_inv s -> dstep s o = (s', e) ->
+  (length (pending s' a) <= length (pending s a))%nat \/
+  (no_connect_err e /\ length (pending s' a) = S (length (pending s a)) /\
+   exists cid q, In (EvSentSyn a cid q) e).
+Proof. exact pending_grows_only_by_connect. Qed.
+
+(* ALL OP LISTS: the control channel is FIFO; ctl_arms ops = number of run_once steps of ops
+   whose select! takes the control arm *)
+Theorem c13_control_fifo : forall ops s n c,
+  d_inv s -> nth_error (d_control s) n = Some c -> (n < ctl_arms ops)%nat ->
+  exists pre pushes send post r,
+    ops = pre ++ DoRunOnce pushes (ArmControl send) :: post /\ ctl_arms pre = n /\
+    d_control (drun s pre) = c :: r.
+Proof. exact control_fifo. Qed.
+
+(* ALL OP LISTS: after a connect() future is dropped, every continuation in which the control arm
+   fires more often than there were messages queued before contains the step that releases it *)
+Theorem c13_dropped_connect_eventually_released : forall s addr token ops,
+  d_inv s ->
+  let s0 := fst (dstep s (DoDropConnect addr token)) in
+  (length (d_control s) < ctl_arms ops)%nat ->
+  exists pre pushes send post,
+    ops = pre ++ DoRunOnce pushes (ArmControl send) :: post /\
+    let sb := drun s0 pre in
+    let sa := fst (dstep sb (DoRunOnce pushes (ArmControl send))) in
+    (forall a, a <> addr -> pending sa a = pending sb a) /\
+    ((pending sa addr = pending sb addr /\ forall x, In x (pending sb addr) -> cn_token x <> token) \/
+     exists c m1 m2, pending sb addr = m1 ++ c :: m2 /\ cn_token c = token /\
+                     (forall x, In x m1 -> cn_token x <> token) /\ pending sa addr = m1 ++ m2).
+Proof. exact dropped_connect_eventually_released. Qed.
+
+(* accq s = the waiting acceptors, oldest first (next_available_acceptor, then the channel);
+   serve_cond s y dead a rest = accq s = dead ++ a :: rest, every acceptor of `dead` was abandoned,
+   a was not, the table has room and the key of SYN y is free *)
+
+(* a live acceptor is served by the next SYN when no older live acceptor exists; the abandoned
+   ones ahead of it consume no request and are gone from the queue *)
+Theorem c13_live_acceptor_served_by_next_syn : forall s pushes addr m dead a rest s' e,
+  d_inv s -> d_syns s = [] -> dm_type m = ST_SYN ->
+  find_stream s {| k_addr := addr; k_conn := dm_conn m |} = None ->
+  serve_cond s (syn_of addr m) dead a rest ->
+  dstep s (DoRunOnce pushes (ArmRecv addr (Some m))) = (s', e) ->
+  e = [EvAccepted a (syn_key (syn_of addr m))] /\ d_syns s' = [] /\
+  exists ext, accq s' = rest ++ ext.
+Proof. exact live_acceptor_served_by_next_syn. Qed.
+
+(* the same from the backlog, at the next run_once whatever arm fires *)
+Theorem c13_live_acceptor_served_from_backlog : forall s pushes arm0 y ys dead a rest s' e,
+  d_inv s -> d_syns s = y :: ys -> serve_cond s y dead a rest ->
+  dstep s (DoRunOnce pushes arm0) = (s', e) ->
+  exists ev, e = EvAccepted a (syn_key y) :: ev.
+Proof. exact live_acceptor_served_from_backlog. Qed.
+
+(* boundary: the CHANNEL POSITION of an abandoned accept call is released only by that sweep:
+   32 abandoned calls keep the 33rd out until the next SYN arrives *)
+Theorem c13_dead_acceptor_position_held_until_sweep :
+  let s1 := drun (dstate_new 128 [7; 100; 200]) full_dead_ops in
+  let s2 := drun s1 [DoPushAcceptor 33] in
+  let '(s3, e3) := dstep s2 (DoRunOnce [] (ArmRecv 5 (Some a_syn))) in
+  let s4 := drun s3 [DoPushAcceptor 33] in
+  let '(s5, e5) := dstep s4 (DoRunOnce [] ArmAccept) in
+  length (d_chan s1) = 32%nat /\ d_chan s2 = d_chan s1 /\
+  e3 = [] /\ d_chan s3 = [] /\ length (d_syns s3) = 1%nat /\
+  d_chan s4 = [33] /\
+  e5 = [EvAccepted 33 {| k_addr := 5; k_conn := 51 |}].
+Proof. exact dead_acceptor_position_held_until_sweep. Qed.
+
+Print Assumptions c13_accepted_wiring.
+Print Assumptions c13_connected_wiring.
+Print Assumptions c13_wiring_cross_keys.
+Print Assumptions c13_stream_args_cross_transcribed.
+Print Assumptions c13_reachable_inv.
+Print Assumptions c13_connect_not_starved.
+Print Assumptions c13_connect_refused_when_four_pending.
+Print Assumptions c13_connect_dropped_frees_slot.
+Print Assumptions c13_connect_after_drop_not_starved.
+Print Assumptions c13_pending_grows_only_by_connect.
+Print Assumptions c13_control_fifo.
+Print Assumptions c13_dropped_connect_eventually_released.
+Print Assumptions c13_live_acceptor_served_by_next_syn.
+Print Assumptions c13_live_acceptor_served_from_backlog.
+Print Assumptions c13_dead_acceptor_position_held_until_sweep.
+
+(* only abandoned acceptors are waiting: the next SYN sweeps them all out of the queue in one step,
+   is cached for the next accept call, and nothing is refused *)
+Theorem c13_dead_acceptors_swept_by_next_syn : forall s addr m s' e,
+  d_inv s -> d_syns s = [] -> dm_type m = ST_SYN ->
+  find_stream s {| k_addr := addr; k_conn := dm_conn m |} = None ->
+  (forall x, In x (accq s) -> In x (d_dead_acceptors s)) ->
+  streams_full s = false -> has_stream s (syn_key (syn_of addr m)) = false ->
+  dstep s (DoRunOnce [] (ArmRecv addr (Some m))) = (s', e) ->
+  e = [] /\ d_syns s' = [syn_of addr m] /\ accq s' = [] /\ d_streams s' = d_streams s.
+Proof. exact dead_acceptors_swept_by_next_syn. Qed.
+
+Print Assumptions c13_dead_acceptors_swept_by_next_syn.
